@@ -491,7 +491,7 @@ func (e *specEnv) evalCall(n *ECall) sv {
 		}
 		hn, hs := c.elemHeap(st.Elem())
 		h := c.heapGet(hn, hs)
-		return sv{app("str_of_bytes", sel(h, app("s-arr", a.t)), app("s-off", a.t), app("s-len", a.t)), tStr}
+		return sv{c.strOfBytes(sel(h, app("s-arr", a.t)), app("s-off", a.t), app("s-len", a.t)), tStr}
 	case "deref":
 		need(1)
 		a := args()[0]
